@@ -339,8 +339,8 @@ def run_check(pid, tier, seed, replay=None):
                     if case_size(last["case"]) <= case_size(best_case):
                         best_case, best_detail = last["case"], last["detail"]
             name = "%s.json" % hashlib.blake2b(str(bucket).encode(), digest_size=6).hexdigest()
-            rel = os.path.join("replays", pid, "found-" + name)
-            os.makedirs(os.path.join(VERIF, "replays", pid), exist_ok=True)
+            rel = os.path.join("found", pid, name)
+            os.makedirs(os.path.join(VERIF, "found", pid), exist_ok=True)
             with open(os.path.join(VERIF, rel), "w") as fh:
                 json.dump({"property": pid, "bucket": bucket, "case": best_case, "detail": best_detail,
                            "seed": seed, "tier": tier}, fh, indent=1, default=str)
